@@ -201,7 +201,10 @@ class Hist:
         import re
         probed, bad = 0, []
         ours = set(id(c) for c in self.cls.values())
-        for k, cls in self.cls.items():
+        items = list(self.cls.items())
+        # derived classes first, then bases, then again in definition order: a verdict must not depend on which class
+        # happened to use an inherited member first
+        for k, cls in list(reversed(items)) + items:
             # the claim concerns classes created through the inheriting metaclass, all the way up
             if not all(isinstance(c, icontract.DBCMeta) for c in cls.__mro__ if id(c) in ours):
                 continue
